@@ -638,9 +638,9 @@ def _plan_impl(tier: str, seed: int):
         corp_m = [s for s in corp_m if len(s) <= 90][:700]
         inserts = QUICK_INSERTS
     else:
-        # (every source of the corpus is checked as it is; the mutants are those of the sources of <= 200 characters -
+        # (every source of the corpus is checked as it is; the mutants are those of the sources of <= 60 characters -
         # the 40-line sources have 50 mutants per character)
-        corp_m = [s for s in corp if len(s) <= 200]
+        corp_m = [s for s in corp if len(s) <= 60]
         inserts = SIGMA
     # plain corpus
     for lo, hi in chunks(len(corp), 16):
@@ -688,7 +688,7 @@ def run_shard(shard) -> ShardResult:
             corp_m = [s for s in corp_m if len(s) <= 90][:700]
             inserts = QUICK_INSERTS
         else:
-            corp_m = [s for s in corp if len(s) <= 200]
+            corp_m = [s for s in corp if len(s) <= 60]
             inserts = SIGMA
         for src in corp_m[lo:hi]:
             run_sources(mutants(src, inserts), res)
